@@ -1147,7 +1147,14 @@ func ruleOneBatchPerNode(w *core.World, r *core.Report) {
 	// the scan: batches[i].node compared with the node, i running over 0 .. len(batches)-1
 	var scanIf *ssa.If
 	var scanIdx *ssa.Phi
-	for _, in := range core.OwnInstrs(f) {
+	// in Put itself, or in a position-finding helper of the package that Put's paths step into
+	var scanInstrs []ssa.Instruction
+	for _, g := range reachableFuncs(f) {
+		if g == f || (g.Parent() == nil && core.Transparent != nil && core.Transparent(g)) {
+			scanInstrs = append(scanInstrs, core.OwnInstrs(g)...)
+		}
+	}
+	for _, in := range scanInstrs {
 		cmp, ok := in.(*ssa.BinOp)
 		if !ok || (cmp.Op != token.EQL && cmp.Op != token.NEQ) {
 			continue
@@ -1342,7 +1349,18 @@ func ruleRedirectStaysWithItsRequest(w *core.World, r *core.Report) {
 		return strings.Contains(target.Type().String(), "RedisError")
 	}
 	n := 0
-	for _, g := range core.DeepFuncs(f) {
+	// run, its closures, and the helpers / methods of the package its phases may live in
+	seenFn := map[*ssa.Function]bool{}
+	var scope []*ssa.Function
+	for _, g0 := range reachableFuncs(f) {
+		for _, g := range core.DeepFuncs(g0) {
+			if !seenFn[g] {
+				seenFn[g] = true
+				scope = append(scope, g)
+			}
+		}
+	}
+	for _, g := range scope {
 		// the fail-all loop: complete(nil, e) called in a loop of g
 		var sites []*ssa.Call
 		for _, in := range core.OwnInstrs(g) {
